@@ -24,7 +24,8 @@ RULE = ('histories on one established DBusClientConnection (in-memory transport,
         'race; distinct = distinct history JSON. The scripted peer writes replies in four spellings (canonical; unknown header field '
         'first; descending field order with an unknown field in the middle; unknown variant-typed field plus flag bit 0x4). '
         'close_req: the application asks for the close and the transport lingers (replies keep arriving until the loss); sync '
-        'calls are answered by a peer in the same process while transport.write() is still on the stack.')
+        'calls are answered by a peer in the same process while transport.write() is still on the stack. Every third reply arrives '
+        'glued behind a duplicate of the previous one and cut 20 bytes before its end (two reads).')
 ASSUMPTIONS = ['timeout=0 / 0.0 / None all mean "no deadline" (what callRemote documents and does); all three spellings are generated',
                'user callbacks attached by the harness do not raise or re-enter']
 
@@ -203,13 +204,22 @@ def run_history(case):
                         rig2.C.reactor = rig.clock
                     N.deliver(rig2.conn, raw)
                 else:
+                    prev = last_reply[0]
                     last_reply[0] = raw
                     if c is not None and c.expected is None and c.expect_reply:
                         if kind == 'reply':
                             outcome = _reply_outcome(c, sig, trees)
                         c.expected = outcome
                         c.deadline = None
-                    N.deliver(rig.conn, raw)
+                    if prev is not None and token[0] % 3 == 0 and len(raw) > 24:
+                        # how the network cuts the stream is nobody's choice: one read ends with a complete message (a
+                        # duplicate of the previous reply, which completes nothing) followed by the beginning of this
+                        # reply; the rest comes with the next read
+                        k = max(1, min(20, len(raw) // 2))
+                        N.deliver(rig.conn, prev + raw[:-k])
+                        N.deliver(rig.conn, raw[-k:])
+                    else:
+                        N.deliver(rig.conn, raw)
                     if rig.transport.disconnected and not lost:
                         out.append(Disc('connection-dropped-by-reply', where))
                         break
